@@ -352,6 +352,15 @@ class ThreadPoolServer(Server):
         '''closes a ThreadPoolServer. In particular, joins the thread pool.'''
         # close parent server
         Server.close(self)
+        # this server tracks its clients in fd_to_conn (not in self.clients), so Server.close() did not
+        # reach them: shut their sockets down now, so that every client sees the end of the stream and a
+        # worker blocked reading from one of them (an incomplete frame, a peer gone silent) comes back
+        # and can be joined below
+        for conn in list(self.fd_to_conn.values()):
+            try:
+                conn._channel.stream.sock.shutdown(socket.SHUT_RDWR)
+            except Exception:
+                pass
         # stop producer thread
         self.polling_thread.join()
         # cleanup thread pool : first fill the pool with None fds so that all threads exit
@@ -360,10 +369,13 @@ class ThreadPoolServer(Server):
             self._active_connection_queue.put(None)
         for w in self.workers:
             w.join()
-        # close the connections that are still open: this server tracks its clients in
-        # fd_to_conn (not in self.clients), so Server.close() did not reach them
+        # close the connections that are still open; one whose disconnect hook raises must not keep
+        # the others from being closed
         for fd in list(self.fd_to_conn):
-            self._drop_connection(fd)
+            try:
+                self._drop_connection(fd)
+            except Exception:
+                self.logger.exception("error closing the connection with fd %s", fd)
 
     def _remove_from_inactive_connection(self, fd):
         '''removes a connection from the set of inactive ones'''
